@@ -429,3 +429,58 @@ func (c *Ctx) finish() int {
 	}
 	return 0
 }
+
+// RaceCompanion reads the output of the check's free-running -race companion (checks/cNN/race,
+// built and run by bin/check before the check binary; path in VERIF_RACE_REPORT). A data race or
+// a panic whose frames lie in one of the given packages, or a line "COMPANION-MISMATCH: ..."
+// printed by the companion (a wrong result under concurrent use), is recorded as a violation;
+// a companion that could not be built or did not run is only noted (evidence field race_pass).
+// The race detector is happens-before based: a report does not depend on which goroutine ran
+// first. It is the side condition of the exhaustive part, not part of it.
+func (c *Ctx) RaceCompanion(what string, pkgs ...string) {
+	path := os.Getenv("VERIF_RACE_REPORT")
+	if path == "" {
+		c.Set("race_pass", "not run (no companion output)")
+		return
+	}
+	b, err := os.ReadFile(path)
+	if err != nil {
+		c.Set("race_pass", "not run: "+err.Error())
+		return
+	}
+	out := string(b)
+	report := func(marker string) string {
+		i := strings.Index(out, marker)
+		if i < 0 {
+			return ""
+		}
+		r := out[i:]
+		if len(r) > 3000 {
+			r = r[:3000]
+		}
+		return r
+	}
+	inPkg := false
+	for _, p := range pkgs {
+		inPkg = inPkg || strings.Contains(out, p)
+	}
+	switch {
+	case strings.Contains(out, "WARNING: DATA RACE") && inPkg:
+		c.Set("race_pass", "data race reported")
+		c.Violation("data race inside the package when goroutines use "+what+" at the same time (race detector, free-running companion)", map[string]any{"report": report("WARNING: DATA RACE")})
+	case strings.Contains(out, "COMPANION-MISMATCH:"):
+		c.Set("race_pass", "wrong result under concurrent use")
+		c.Violation("wrong result when goroutines use "+what+" at the same time (free-running companion)", map[string]any{"report": report("COMPANION-MISMATCH:")})
+	case strings.Contains(out, "panic:") && inPkg:
+		c.Set("race_pass", "panic")
+		c.Violation("panic when goroutines use "+what+" at the same time (free-running companion)", map[string]any{"report": report("panic:")})
+	case strings.Contains(out, "rounds completed"):
+		c.Set("race_pass", "ok: "+strings.TrimSpace(out[strings.Index(out, "race companion"):]))
+	default:
+		first := out
+		if len(first) > 300 {
+			first = first[:300]
+		}
+		c.Set("race_pass", "inconclusive: "+first)
+	}
+}
